@@ -17,6 +17,8 @@ import (
 // Profile selects the serializer's freedom.
 type Profile struct {
 	Canonical bool // fmt-canonical: LF, no tabs, no extra indentation, N=1, one line per inline construct
+	Depth     int  // container nesting limit (default 3)
+	TopBlocks int  // upper bound of top-level blocks (default 5)
 	MaxNodes  int
 	// No lists constructs that must not be generated (feature names as in Doc.Features,
 	// e.g. "block:html", "inline:image", plus "tightfirst:atx", "tightfirst:fenced").
@@ -1108,7 +1110,13 @@ func Generate(r *core.Rand, p Profile) *Doc {
 	for k := r.Intn(3); k > 0; k-- {
 		pre = append(pre, g.refDef())
 	}
-	top := g.blocks(r.Range(1, 5), 3)
+	if p.Depth == 0 {
+		p.Depth = 3
+	}
+	if p.TopBlocks == 0 {
+		p.TopBlocks = 5
+	}
+	top := g.blocks(r.Range(1, p.TopBlocks), p.Depth)
 	// place the pre-decided definitions at random top-level positions
 	for _, d := range pre {
 		i := r.Intn(len(top) + 1)
